@@ -34,6 +34,7 @@ class _State:
     log = []
     selector_file = None
     helper_codes = frozenset()
+    ctor_codes = frozenset()
 
 
 STATE = _State()
@@ -62,6 +63,12 @@ def configure(selector_module, helper_names):
         if c is not None:
             walk(c)
     STATE.helper_codes = frozenset(codes)
+    try:
+        from flow.record.base import DynamicFieldtypeModule
+
+        STATE.ctor_codes = frozenset({DynamicFieldtypeModule.__call__.__code__})
+    except Exception:  # noqa: BLE001 - tolerant of refactorings: the path test in _code_tag remains
+        STATE.ctor_codes = frozenset()
 
 
 def caller_class_of_code(code):
@@ -72,9 +79,43 @@ def caller_class_of_code(code):
     return "interpreter"
 
 
+def _code_tag(code):
+    """What kind of library code sits between the selector module and a canary method (for named-method calls)."""
+    fn = code.co_filename.replace("\\", "/")
+    if code in STATE.ctor_codes or "/flow/record/fieldtypes/" in fn:
+        return "fieldtype-constructor"
+    base = fn.rsplit("/", 1)[-1]
+    if code.co_filename == __file__:
+        return "canary-internal"
+    if "/re/" in fn or base.startswith("sre_") or base == "re.py":
+        return "regex-engine"
+    if base in ("ipaddress.py", "parse.py") and "/flow/" not in fn:
+        return "stdlib:" + base
+    return base + ":" + code.co_name
+
+
+def call_root(frame):
+    """(class, function name, tags of the library frames in between) of the nearest selector-module frame that (indirectly)
+    issued a call: tells on whose behalf library code invoked a method of a value."""
+    via = []
+    f = frame
+    for _ in range(30):
+        if f is None:
+            break
+        code = f.f_code
+        cls = caller_class_of_code(code)
+        if cls != "outside":
+            return (cls, code.co_name, tuple(via))
+        if len(via) < 8:
+            via.append(_code_tag(code))
+        f = f.f_back
+    return ("none", None, tuple(via))
+
+
 def _log(kind, obj, name, frame):
     code = frame.f_code
-    STATE.log.append((kind, type(obj).__name__, name, caller_class_of_code(code), code.co_name))
+    root = call_root(frame) if kind == "call" else None
+    STATE.log.append((kind, type(obj).__name__, name, caller_class_of_code(code), code.co_name, root))
 
 
 def arm():
@@ -101,10 +142,38 @@ class CanaryBase:
             _log("call", self, HOSTILE_METHOD, sys._getframe(1))
         return CStr("boom")
 
+    def __getattr__(self, name):
+        # while armed a canary exposes ANY public attribute name as a logged callable (gettypename, records, startswith
+        # on a non-string ...): duck-typing helper code that probes a value with hasattr()/getattr() and calls it is seen
+        if STATE.armed and name[:1] != "_":
+            return CAnyMethod(self, name)
+        raise AttributeError(name)
+
     @property
     def __trip__(self):
         # reading it is logged by __getattribute__ (name starts with '__'); the value is a canary again
         return CStr("tripped")
+
+
+class CAnyMethod(CanaryBase):
+    """`value.<any name>`: calling it is logged as a named-method call on the owning value."""
+
+    def __init__(self, owner, name):
+        d = object.__getattribute__(self, "__dict__")
+        d["owner"], d["name"] = owner, name
+
+    def __getattr__(self, name):
+        raise AttributeError(name)
+
+    def __call__(self, *a, **k):
+        d = object.__getattribute__(self, "__dict__")
+        if STATE.armed:
+            _log("call", d["owner"], d["name"], sys._getframe(1))
+        return CStr("any:" + d["name"])
+
+    def __repr__(self):
+        d = object.__getattribute__(self, "__dict__")
+        return "<canary attribute %s of %s>" % (d["name"], type(d["owner"]).__name__)
 
 
 def is_canary_callable(c):
